@@ -48,6 +48,7 @@ fn required(plan: &Plan) -> Vec<String> {
         }
     }
     v.push("merge:ancestor".into());
+    v.push("merge:chain".into());
     v.push("merge:source-ends-in-first-item".into());
     v
 }
@@ -167,6 +168,30 @@ fn merge_twin<E: Entry>(ctx: &mut Ctx) {
         };
         if let Some(src) = src {
             sources.push(src);
+        }
+    }
+    // chain: the region is sized from a single ancestor that itself was merged from the
+    // sources and absorbed their contents again (grand-parents are not among the sources)
+    if !sources.is_empty() && ctx.rng.chance(1, 4) {
+        let refs: Vec<&E::R> = sources.iter().collect();
+        match panics::catch(|| {
+            let mut r = E::R::merge_regions(refs.iter().copied());
+            let mut aux = E::R::default();
+            for v in &covered {
+                let _ = E::push(&mut r, v, 0, &mut aux);
+            }
+            r
+        }) {
+            Ok(r) => {
+                ctx.log(format!("chain = merge_regions(sources) fed the {} values they contain; only the chain is a source now", covered.len()));
+                ctx.cover("merge:chain");
+                sources = vec![r];
+            }
+            Err(p) => {
+                ctx.fail_panic("merge_regions", &p);
+                ctx.end_history();
+                return;
+            }
         }
     }
     let refs: Vec<&E::R> = sources.iter().collect();
